@@ -12,6 +12,7 @@ import (
 	"context"
 	"fmt"
 	"io"
+	"os"
 	"sort"
 	"strings"
 	"testing"
@@ -146,6 +147,11 @@ type verdict struct {
 
 // runTest runs one compliance test against the world, the way ccli does (two fresh fluent clients on fresh
 // connections; the connections are torn down afterwards).
+// forceDisconnect tears every stream of a test down when the test has returned. It is OFF: a session that a test
+// leaves open (a client it never stopped) stays connected on a long-lived server, exactly as it does when ccli runs
+// the suite in one process, and constrains the tests that follow.
+var forceDisconnect = os.Getenv("VERIF_C19_FORCE_DISCONNECT") != ""
+
 func (w *world) runTest(tt *compliance.TestSpec) (v verdict) {
 	st1, st2 := wire.New(w.front), wire.New(w.front)
 	w.stubs = append(w.stubs, st1, st2)
@@ -172,12 +178,14 @@ func (w *world) runTest(tt *compliance.TestSpec) (v verdict) {
 		c.Stop(t)
 		sc.Stop(t)
 	}()
-	for _, st := range []*wire.Stub{st1, st2} {
-		for _, m := range st.Modifies {
-			m.Abort(codes.Canceled)
-		}
-		for _, g := range st.Gets {
-			g.Abort(codes.Canceled)
+	if forceDisconnect {
+		for _, st := range []*wire.Stub{st1, st2} {
+			for _, m := range st.Modifies {
+				m.Abort(codes.Canceled)
+			}
+			for _, g := range st.Gets {
+				g.Abort(codes.Canceled)
+			}
 		}
 	}
 	rt.Quiesce()
